@@ -328,6 +328,115 @@ Proof.
 Qed.
 
 (* ---------------------------------------------------------------------- *)
+(*  The decoder never gets stuck: whatever the bytes, `bin_to_mesh` either  *)
+(*  panics in decompress or returns a mesh                                 *)
+(* ---------------------------------------------------------------------- *)
+
+Lemma ints_of_val_total w y : wt (TSeq (TInt w)) y = true -> exists r, ints_of_val y = Some r.
+Proof. destruct y; try discriminate. exact (int_seq_total w l). Qed.
+
+Lemma vec_of_val_total k w y : wt (TArr k (TInt w)) y = true -> exists r, vec_of_val y = Some r.
+Proof. destruct y; try discriminate. exact (int_arr_total k w l). Qed.
+
+Lemma vecs_of_val_total k w y : wt (TSeq (TArr k (TInt w))) y = true -> exists r, vecs_of_val y = Some r.
+Proof.
+  destruct y; try discriminate. intro H. cbn [wt] in H. apply andb_true_iff in H. destruct H as [_ H].
+  cbn [vecs_of_val]. apply all_some_total. eapply Forall_impl; [|apply forallb_true_Forall, H].
+  intros x Hx. exact (vec_of_val_total _ _ _ Hx).
+Qed.
+
+Lemma names_of_val_total y : wt (TSeq TBytes) y = true -> exists r, names_of_val y = Some r.
+Proof.
+  destruct y; try discriminate. intro H. cbn [wt] in H. apply andb_true_iff in H. destruct H as [_ H].
+  cbn [names_of_val]. apply all_some_total. eapply Forall_impl; [|apply forallb_true_Forall, H].
+  intros x Hx. destruct x; try discriminate. cbn. eauto.
+Qed.
+
+Lemma morph_of_val_total y : wt asset_id_ty y = true -> exists r, morph_of_val y = Some r.
+Proof.
+  unfold asset_id_ty. intro H. apply wt_enum_inv in H. destruct H as (idx & p & -> & H).
+  cbn [wt_variant] in H. destruct (N.eqb_spec idx 0) as [->|N0].
+  - apply wt_tuple_inv in H. destruct H as (vs & -> & H).
+    apply wt_fields_cons_inv in H. destruct H as (a & vs' & -> & Ha & H).
+    apply wt_fields_cons_inv in H. destruct H as (b & vs'' & -> & Hb & H).
+    apply wt_fields_nil_inv in H. subst vs''.
+    apply wt_unit_inv in Hb. subst b.
+    apply wt_tuple_inv in Ha. destruct Ha as (l & -> & Ha).
+    apply wt_fields_cons_inv in Ha. destruct Ha as (g & l' & -> & Hg & Ha).
+    apply wt_fields_cons_inv in Ha. destruct Ha as (i & l'' & -> & Hi & Ha).
+    apply wt_fields_nil_inv in Ha. subst l''.
+    apply wt_int_inv in Hg. destruct Hg as [g' ->]. apply wt_int_inv in Hi. destruct Hi as [i' ->].
+    cbn. eauto.
+  - destruct (N.eqb_spec (N.pred idx) 0) as [E|N1]; [|discriminate].
+    assert (idx = 1) by lia. subst idx.
+    apply wt_tuple_inv in H. destruct H as (vs & -> & H).
+    apply wt_fields_cons_inv in H. destruct H as (a & vs' & -> & Ha & H).
+    apply wt_fields_nil_inv in H. subst vs'.
+    apply wt_bytes_inv in Ha. destruct Ha as [u ->]. cbn. eauto.
+Qed.
+
+Lemma opt_field_total {A} (conv : val -> option A) e f t :
+  (exists x, get_field e f = Some x /\ wt (TOpt t) x = true) ->
+  (forall y, wt t y = true -> exists r, conv y = Some r) ->
+  exists r, opt_field conv e f = Some r.
+Proof.
+  intros (x & G & W) C. unfold opt_field. rewrite G.
+  destruct (wt_opt_inv _ _ W) as [->|(y & -> & Wy)]; [eauto|].
+  destruct (C y Wy) as [r ->]. eauto.
+Qed.
+
+Lemma part_total {A} (conv : val -> option A) e src f t :
+  fields_targeting src = [f] ->
+  (exists x, get_field e f = Some x /\ wt (TOpt t) x = true) ->
+  (forall y, wt t y = true -> exists r, conv y = Some r) ->
+  exists r, part conv e src = Some r.
+Proof.
+  intros T G C. destruct (opt_field_total conv e f t G C) as [r O].
+  exists r. eapply part_single; eauto.
+Qed.
+
+Lemma mesh_of_data_total v : wt MeshData_ty v = true -> exists m, mesh_of_data v = Some m.
+Proof.
+  unfold MeshData_ty. intro W. apply wt_tuple_inv in W. destruct W as (vs & -> & W).
+  cbn [mesh_of_data]. set (e := combine (map fst meshdata_fields) vs).
+  pose proof (env_typed_gen mfield_eqb meshdata_fields vs W) as T. fold e in T. change (assoc mfield_eqb ?f e) with (get_field e f) in T.
+  unfold mesh_of_env.
+  (* topology *)
+  assert (exists t, topology_of_env e = Some t) as [t0 ->].
+  { unfold topology_of_env.
+    let r := eval vm_compute in (fields_targeting SrcTopology) in change (fields_targeting SrcTopology) with r.
+    edestruct T as (x & -> & Wx); [table|]. apply wt_int_inv in Wx. destruct Wx as [n ->]. eauto. }
+  cbn [obind].
+  do 8 (match goal with |- context [part vecs_of_val e ?s] =>
+    let H := fresh in
+    assert (exists r, part vecs_of_val e s = Some r) as [? H];
+      [ eapply part_total; [table | eapply T; table | apply vecs_of_val_total] | rewrite H; cbn [obind] ]
+  end).
+  assert (exists i, indices_of_env e = Some i) as [i0 ->].
+  { unfold indices_of_env.
+    let r := eval vm_compute in index_fields in change index_fields with r.
+    unfold all_some. cbn [all_some_acc]. unfold index_field. cbn [fst snd].
+    edestruct (opt_field_total ints_of_val e) as [r1 ->]; [eapply T; table | apply ints_of_val_total |].
+    destruct r1; (edestruct (opt_field_total ints_of_val e) as [r2 ->]; [eapply T; table | apply ints_of_val_total |]);
+    destruct r2; eauto. }
+  cbn [obind].
+  assert (exists r, part morph_of_val e SrcMorph = Some r) as [h0 ->].
+  { eapply part_total; [table | eapply T; table | apply morph_of_val_total]. }
+  cbn [obind].
+  assert (exists r, part names_of_val e SrcNames = Some r) as [n0 ->].
+  { eapply part_total; [table | eapply T; table | apply names_of_val_total]. }
+  cbn [obind]. eauto.
+Qed.
+
+(* for EVERY byte string *)
+Theorem bin_to_mesh_never_stuck : forall bs, bin_to_mesh bs <> Stuck.
+Proof.
+  intro bs. unfold bin_to_mesh. destruct (decompress bs) as [e|raw]; [discriminate|].
+  destruct (dec MeshData_ty raw) as [[v r]|] eqn:D; [|discriminate].
+  destruct (mesh_of_data_total v (dec_wt _ _ _ _ D)) as [m ->]. discriminate.
+Qed.
+
+(* ---------------------------------------------------------------------- *)
 (*  Source ties: the generated tables are the ones the model was written   *)
 (*  for (statements repeated in Properties/C11.v)                          *)
 (* ---------------------------------------------------------------------- *)
